@@ -4,7 +4,7 @@ CFG = {'assumptions': ['f64 inputs and outputs cross the boundary as bit pattern
                  'geographiclib-rs (Karney direct/inverse) is an engine parameter of the model: its accuracy is '
                  "observed through geo's API, not proved",
                  'libm sin/cos/tan/atan2/asin/ln are engine parameters of the model'],
- 'count': {'quick': 60000, 'thorough': 2400000},
+ 'count': {'quick': 80000, 'thorough': 3000000},
  'lean_files': ['GeoModel/Geodesy.lean', 'GeoModel/Ops/C16.lean'],
  'rule': 'metric space in {Haversine, HaversineMeasure::new(R), Geodesic (WGS84), GeodesicMeasure::new(a, f), Rhumb} x '
          '{pair (a, b, ratio): distance both ways and to self, bearing both ways, round trip, ratio point, ratio 0/1; '
